@@ -50,12 +50,50 @@ def ill_formed():
      'stop-in-func-expr': "val exit = 0; func f() is stop proc main() is exit(f())",
      'many-args': "val exit = 0; func f(" + ", ".join(f"val a{i}" for i in range(40)) + ") is return a0 proc main() is exit(f(" + ", ".join(str(i) for i in range(40)) + "))",
      'many-procs': "val exit = 0; " + " ".join(f"proc p{i}() is skip" for i in range(150)) + " proc main() is exit(0)",
+     'comment-to-eof': "val exit = 0; proc main() is exit(7)\n| the program ends here", 'comment-only': "|", 'comment-then-eof-after-code': "proc main() is skip |",
+     'local-val-subscript': "val exit = 0; proc main() is val v = 2; exit(v[0])", 'local-val-subscript-assign': "val exit = 0; proc main() is val v = 2; v[0] := 1",
+     'redeclared-proc-temps': "var g; proc p() is g := g + (g + (g + g)) proc p() is skip proc main() is p()",
      'fold-overflow-plus': "val exit = 0; proc main() is exit(2147483647 + 1)", 'fold-overflow-minus': "val exit = 0; proc main() is exit((0 - 2147483647) - 2)",
      'fold-overflow-neg': "val exit = 0; val m = #80000000; proc main() is exit(-m)", 'fold-overflow-val': "val big = 2147483647; val more = big + big; proc main() is 0(more)",
      'array-size-overflow': "val exit = 0; array t[2147483647]; proc main() is exit(0)", 'array-size-fold-overflow': "val exit = 0; array t[2147483647 + 2]; proc main() is exit(0)",
      'const-pool-edge': "val exit = 0; proc main() is exit(65535 + 65536)", 'frame-large': "val exit = 0; proc main() is " + " ".join(f"var v{i};" for i in range(300)) + " exit(0)",
     }
     return [('ill:' + k, v) for k, v in P.items()]
+
+def matrix_programs():
+    """systematic families: every kind of declaration x every way of using a name; every pair of kinds declared under one name
+    (globally twice, and globally + locally), each with a use"""
+    out = []
+    USES = {'read': "exit(N)", 'assign': "N := 1", 'sub-read': "exit(N[1])", 'sub-assign': "N[1] := 2", 'call-stmt': "N(1)", 'call-expr': "exit(N(1) + 1)",
+            'val-actual': "exit(idv(N))", 'array-actual': "exit(ida(N))", 'proc-actual': "app(N)", 'neg': "exit(-N)", 'cond': "if N then exit(1) else exit(2)"}
+    HEADX = "val exit = 0; func idv(val a) is return a func ida(array a) is return a[0] proc app(proc q) is q(1) "
+    GLOBAL = {'val': "val N = 3;", 'var': "var N;", 'array': "array N[3];", 'proc': "proc N(val a) is skip", 'func': "func N(val a) is return a",
+              'proc-temps': "var gg; proc N(val a) is gg := gg + (gg + (gg + a))", 'func-locals': "func N(val a) is var b; { b := a + (a + a); return b }"}
+    LOCAL = {'local-val': "val N = 3;", 'local-var': "var N;"}
+    FORMAL = {'val-formal': "val N", 'array-formal': "array N", 'proc-formal': "proc N", 'func-formal': "func N"}
+    for kn, decl in GLOBAL.items():
+        for un, use in USES.items():
+            pre = decl + " " if decl.endswith(';') else ""; post = "" if decl.endswith(';') else decl + " "
+            out.append((f"matrix:{kn}:{un}", (HEADX.replace('val exit = 0;', 'val exit = 0; ' + pre) + post + "proc main() is " + use).replace('N', 'nm')))
+    for kn, decl in LOCAL.items():
+        for un, use in USES.items():
+            out.append((f"matrix:{kn}:{un}", (HEADX + f"proc main() is {decl} " + use).replace('N', 'nm')))
+    for kn, formal in FORMAL.items():
+        for un, use in USES.items():
+            out.append((f"matrix:{kn}:{un}", (HEADX + f"proc user({formal}) is " + use + " proc main() is skip").replace('N', 'nm')))
+    for un, use in USES.items():
+        out.append((f"matrix:undeclared:{un}", (HEADX + "proc main() is " + use).replace('N', 'nm')))
+    # one name, two declarations
+    for k1, d1 in GLOBAL.items():
+        for k2, d2 in GLOBAL.items():
+            semis = ' '.join(d for d in (d1, d2) if d.endswith(';')); defs = ' '.join(d for d in (d1, d2) if not d.endswith(';'))
+            for un in ('read', 'call-stmt', 'sub-read', 'assign'):
+                out.append((f"matrix:twice:{k1}+{k2}:{un}", ("val exit = 0; " + semis + " " + defs + " proc main() is " + USES[un]).replace('N', 'nm')))
+        for kl, dl in LOCAL.items():
+            semis = d1 if d1.endswith(';') else ''; defs = '' if d1.endswith(';') else d1
+            for un in ('read', 'call-stmt', 'sub-read', 'assign'):
+                out.append((f"matrix:shadow:{k1}+{kl}:{un}", ("val exit = 0; " + semis + " " + defs + f" proc main() is {dl} " + USES[un]).replace('N', 'nm')))
+    return out
 
 def mutants(tier, seed):
     """token-level mutations of the skeleton programs: one token deleted, duplicated, or replaced by another token of the program"""
@@ -85,7 +123,7 @@ def _job(job):
         if kind == 'bytes':
             n = job[1]; first = job[2]
             chars = [z3.BitVec(f'c{i}', 8) for i in range(n)]
-            E = X.engine(chars); E.max_paths = 400000; E.deadline = time.time() + 3000
+            E = X.engine(chars); E.max_paths = 400000; E.deadline = time.time() + 3000; E.max_steps = 3_000_000      # inputs of a few bytes compile in < 100 000 steps
             st = State(); st.pc = [z3.And(z3.UGE(chars[0], first[0]), z3.ULE(chars[0], first[1]))] if n else []
             s = st.alloc(520, 'istream'); st.wobj(s.obj).zero.append((0, 520))
             E.store(st, s, 8, Ptr(('g', '_ZTTSt14basic_ifstreamIcSt11char_traitsIcEE$fakevt'), 24))
@@ -140,9 +178,11 @@ def main():
     nbytes = 2 if quick else 3; ktok = 5 if quick else 7; kbody = 3 if quick else 5
     jobs = []
     for n in range(1, nbytes + 1): jobs += [('bytes', n, fb) for fb in FIRST_BYTES]
-    jobs += [('tokens', ktok, t) for t in range(0, NT + 1)]
-    jobs += [('body', kbody, t) for t in range(0, NT + 1)]
-    progs = ill_formed() + [('unusual:' + k, v) for k, v in UNUSUAL.items()] + mutants(ck.tier, ck.seed)
+    # work splitting by the kinds of the first one (quick) or two (thorough) symbolic tokens
+    heads = [t for t in range(0, NT + 1)] if quick else [(t, u) for t in range(0, NT + 1) for u in range(0, NT + 1)]
+    jobs += [('tokens', ktok, h) for h in heads]
+    jobs += [('body', kbody, h) for h in heads]
+    progs = ill_formed() + matrix_programs() + [('unusual:' + k, v) for k, v in UNUSUAL.items()] + mutants(ck.tier, ck.seed)
     jobs += [('program', n, s) for n, s in progs]
     jobs.sort(key=lambda j: 0 if j[0] in ('tokens', 'body') else (1 if j[0] == 'bytes' else 2))
     results = []
@@ -169,9 +209,12 @@ def main():
             if sig in seen: seen[sig][1] += 1; continue
             seen[sig] = [(cat, what, text, j), 1]
     for sig, ((cat, what, text, j), count) in seen.items():
-        if cat == 'budget':
+        if cat in ('incomplete', 'budget'):
+            # a path that does not end: the real compiler decides whether this is a hang
             ok, how = confirm(text)
-            if not ok: continue            # the engine's depth/step budget, not the compiler: the real compiler finishes
+            if not ok:
+                if cat == 'incomplete': ck.fail_inconclusive(f"exploration incomplete in job {j[:2]}: {what} ({count} paths cut; the native compiler finishes on {text[:60]!r})")
+                continue                   # depth: the engine's 400-frame limit, not the compiler's
         else: ok, how = confirm(text)
         key = f"{cat}:{hashlib.sha1((sig[1]).encode()).hexdigest()[:10]}"
         rp = ck.replay_file(key, {'source': text, 'engine_finding': what, 'inputs_reaching_it': count, 'native_sanitizer_run': how, 'job': str(j[:2])})
